@@ -30,9 +30,12 @@ import time
 import common as C
 
 PROPERTY = "C15"
-LEAN_MODULES = ["LccModel.Props.C15", "LccModel.Props.C15Validation", "LccModel.Proto"]   # the last one: what drivers/C15.lean imports besides the models
-PROPS_FILES = ["LccModel/Props/C15.lean", "LccModel/Props/C15Validation.lean"]
-NAMESPACES = {"LccModel/Props/C15.lean": "LccModel.C15", "LccModel/Props/C15Validation.lean": "LccModel.C15V"}
+LEAN_MODULES = ["LccModel.Props.C15", "LccModel.Props.C15Validation", "LccModel.Props.C15Context", "LccModel.Props.C15Scope",
+                "LccModel.Proto",                                                      # what drivers/C15.lean imports besides the models
+                "LccModel.ProtoReport", "LccModel.Model.RunAccept", "LccModel.Model.Writer", "LccModel.Model.Grammar"]   # … and drivers/Run.lean (stream C15.sched)
+PROPS_FILES = ["LccModel/Props/C15.lean", "LccModel/Props/C15Validation.lean", "LccModel/Props/C15Context.lean", "LccModel/Props/C15Scope.lean"]
+NAMESPACES = {"LccModel/Props/C15.lean": "LccModel.C15", "LccModel/Props/C15Validation.lean": "LccModel.C15V",
+              "LccModel/Props/C15Context.lean": "LccModel.C15Ctx", "LccModel/Props/C15Scope.lean": "LccModel.C15Scope"}
 DRIVER = "drivers/C15.lean"
 TRUSTED_BASE = [
     "Lean 4.33.0 kernel; axioms of the property theorems ⊆ {propext, Classical.choice, Quot.sound}",
@@ -133,7 +136,71 @@ def tables(ctx):
                               {"f": [fscope, fpt], "g": [gscope, gpt], "verdict": verdict}))
     imp = ("LccModel.Model.FixtureDecl",)
     return [C.Table("declTable", "List ((Scope × Bool) × Bool)", decl_rows, imports=imp),
-            C.Table("pairTable", "List ((Scope × Bool × Scope × Bool) × Verdict)", pair_rows, imports=imp)]
+            C.Table("pairTable", "List ((Scope × Bool × Scope × Bool) × Verdict)", pair_rows, imports=imp),
+            C.Table("slotKeyTable", "List ((%s × Bool × %s) × Bool)" % (_WHERE, _WHERE), slot_key_rows(),
+                    imports=("LccModel.Model.ThreadsCtx",))]
+
+
+_WHERE = "LccModel.Threads.Ctx.Where"
+_WHERES = ("base", "copied", "fresh")
+
+
+def slot_key_rows():
+    """WHO owns the slot of a ThreadedFactory — the OS thread or the `contextvars` context?  Decided by executing the real
+    class on the whole domain: a first `get_object()` by thread 1 made in its base context / inside a copy of it / inside a
+    fresh empty context, then a second one by the same or by another OS thread, made in that thread's base context / in a
+    copy of the context the FIRST access ran in / in a fresh empty context.  Row value: did the second access reuse the
+    object of the first (True) or create another one (False)."""
+    import contextvars
+
+    from lemoncheesecake.helpers import threading as lt
+
+    rows = []
+    for first in _WHERES:
+        for other in (False, True):
+            for second in _WHERES:
+                created = []
+
+                class F(lt.ThreadedFactory):
+                    def setup_object(self):
+                        created.append(object())
+                        return created[-1]
+
+                f = F()
+                box = {}
+
+                def access_first():
+                    if first == "base":
+                        f.get_object()
+                        box["ctx"] = contextvars.copy_context()     # a snapshot of the context the access ran in
+                    else:
+                        ctx = contextvars.copy_context() if first == "copied" else contextvars.Context()
+                        ctx.run(f.get_object)
+                        box["ctx"] = ctx
+
+                def access_second():
+                    if second == "base":
+                        f.get_object()
+                    elif second == "copied":
+                        box["ctx"].copy().run(f.get_object)
+                    else:
+                        contextvars.Context().run(f.get_object)
+
+                def thread_one():
+                    access_first()
+                    if not other:
+                        access_second()
+                for fn in (thread_one,) + ((access_second,) if other else ()):
+                    th = threading.Thread(target=fn, daemon=True)
+                    th.start()
+                    th.join(10)
+                    if th.is_alive():
+                        raise C.InfraError("slot_key_rows: thread still alive")
+                hit = len(created) == 1
+                rows.append(("(%s.%s, %s, %s.%s)" % (_WHERE, first, _lean_bool(other), _WHERE, second), _lean_bool(hit),
+                             {"first_access_in": first, "second_access_by_other_thread": other, "second_access_in": second,
+                              "second_access_reused_the_object": hit}))
+    return rows
 
 
 class _Boom(Exception):
@@ -213,6 +280,22 @@ SINGLETON_KINDS = {"zero", "none", "empty-str", "false", "empty-tuple"}     # ev
 EQUAL_KINDS = {"eq-list", "eq-obj", "eq-tuple", "eq-int", "empty-list", "empty-dict", "empty-set", "zero-float"}
 
 
+# HOW a `get_object()` call is made.  "Per thread" means per OS thread: the object a thread created must be found again
+# by that thread from whatever execution context it looks (a coroutine driven by asyncio.run runs in a COPY of the caller's
+# `contextvars` context, so does every asyncio task and `copy_context().run`), and it must not travel to another OS
+# thread with a copied context (asyncio.to_thread / executors hand a copy of the caller's context to a helper thread).
+OWN_HOWS = ("plain", "copy", "fresh", "arun", "task")       # executed by the calling thread itself
+HELPER_HOWS = ("to-thread", "thread-ctx", "thread")          # executed by ANOTHER OS thread (the caller waits for it)
+HOWS = OWN_HOWS + HELPER_HOWS
+
+
+def gen_hows(rng, gets):
+    if rng.random() < 0.6:
+        return [["plain"] * g for g in gets]
+    pool = ["plain", "plain", "plain", "arun", "arun", "copy", "fresh", "task", "to-thread", "to-thread", "thread-ctx", "thread"]
+    return [[rng.choice(pool) for _ in range(g)] for g in gets]
+
+
 def gen_values(rng, k):
     r = rng.random()
     if r < 0.35:
@@ -261,6 +344,20 @@ class Factory(C.Stream):
          "delay": [0, 0, 0], "teardowns": 1, "td_raise_calls": [], "seed": 10, "values": ["eq-list", "eq-list", "false"]},
         {"threads": 3, "mode": "barrier", "gets": [2, 2, 2], "raise_at": [[], [], []], "setup": ["rendezvous"] * 3,
          "delay": [0, 0, 0], "teardowns": 2, "td_raise_calls": [], "seed": 11, "values": ["empty-str", "eq-obj", "falsy-obj"]},
+        # accesses from asyncio code and copied contexts: the first access of a thread made inside asyncio.run / a task /
+        # copy_context().run, later ones from the plain body; helper OS threads fed with a copy of the caller's context
+        # (asyncio.to_thread, Thread(target=ctx.run)) after the caller got its object
+        {"threads": 3, "mode": "barrier", "gets": [3, 3, 3], "raise_at": [[], [0], []], "setup": ["rendezvous"] * 3,
+         "delay": [0, 0, 0], "teardowns": 1, "td_raise_calls": [], "seed": 12, "values": ["obj", "obj", "empty-list"],
+         "how": [["arun", "plain", "to-thread"], ["task", "copy", "plain"], ["plain", "thread-ctx", "fresh"]]},
+        {"threads": 2, "mode": "line", "gets": [4, 3], "raise_at": [[], []], "setup": ["none"] * 2,
+         "delay": [0, 0], "teardowns": 1, "td_raise_calls": [1], "seed": 13, "values": ["obj", "none"],
+         "how": [["copy", "arun", "plain", "thread"], ["to-thread", "plain", "to-thread"]]},
+        # minimised failing inputs of the seeded change C15-6 (the slot a contextvars.ContextVar): ONE worker thread
+        {"threads": 1, "mode": "free", "gets": [2], "raise_at": [[]], "setup": ["none"], "delay": [0], "teardowns": 1,
+         "td_raise_calls": [], "seed": 14, "values": ["obj"], "how": [["arun", "plain"]]},
+        {"threads": 1, "mode": "free", "gets": [2], "raise_at": [[]], "setup": ["none"], "delay": [0], "teardowns": 1,
+         "td_raise_calls": [], "seed": 15, "values": ["obj"], "how": [["plain", "to-thread"]]},
     ]
 
     def gen(self, rng, i):
@@ -292,10 +389,13 @@ class Factory(C.Stream):
                 td_raise_calls = ["last"]
         return {"threads": k, "mode": mode, "gets": gets, "raise_at": raise_at, "setup": setup, "delay": delay,
                 "teardowns": teardowns, "td_raise_calls": td_raise_calls, "seed": rng.randrange(1 << 30),
-                "values": gen_values(rng, k)}
+                "values": gen_values(rng, k), "how": gen_hows(rng, gets)}
 
     # ---- the real code ---------------------------------------------------------------------------
     def impl(self, case):
+        import asyncio
+        import collections
+        import contextvars
         import random
 
         from lemoncheesecake.helpers import threading as lt
@@ -304,16 +404,41 @@ class Factory(C.Stream):
         k = case["threads"]
         lock = threading.Lock()
         trace = []
-        st = {"created": 0, "td_calls": 0, "td_in_run": 0, "td_seen": set()}
-        attempts = [0] * (k + 1)
-        done_first = [False] * (k + 1)
-        tags = {}
+        ret_ctx = {}            # index of a `ret` event in the trace -> label of the context the call was made in
+        st = {"created": 0, "td_calls": 0, "td_in_run": 0, "td_seen": set(), "ctx": 1000}
+        attempts = collections.defaultdict(int)
+        done_first = collections.defaultdict(bool)
+        tags = {}               # thread OBJECT -> tag (workers 0..k-1, the caller of teardown_factory k, helper threads k+1…)
         notes = set()
+        hows = case.get("how") or [["plain"] * g for g in case["gets"]]
+        main_thread = threading.current_thread()
 
         def tag():
-            return tags.get(threading.get_ident(), k)
+            th = threading.current_thread()
+            t = tags.get(th)
+            if t is None:
+                if th is main_thread:
+                    return k
+                with lock:          # a helper OS thread (asyncio.to_thread / threading.Thread started by a worker)
+                    t = tags.setdefault(th, k + 1 + sum(1 for v in tags.values() if v > k))
+            return t
 
-        kinds = list(case.get("values") or ["obj"] * k) + ["obj"]
+        ctx_label = contextvars.ContextVar("lccverif-c15-context")
+
+        def cur_ctx():
+            """label of the `contextvars` context current in the calling thread (its base context: the thread's tag)"""
+            return ctx_label.get(tag())
+
+        def new_ctx(copy_of=None):
+            t = tag()
+            with lock:
+                st["ctx"] += 1
+                c = st["ctx"]
+                if copy_of is not None:
+                    trace.append(["copy", t, copy_of, c])
+            return c
+
+        kinds = list(case.get("values") or ["obj"] * k)
         made = []               # creation index n -> the value the n-th successful setup_object call returned (kept alive)
         made_by = []            # creation index n -> creating thread
 
@@ -339,13 +464,15 @@ class Factory(C.Stream):
                     list.append(self, x)
 
         mode = case["mode"]
-        # a thread joins the rendezvous inside setup_object only if one of its attempts will succeed
-        will_succeed = [any(a not in case["raise_at"][t] for a in range(case["gets"][t])) for t in range(k)]
+        n_own = [sum(1 for h in hows[t] if h in OWN_HOWS) for t in range(k)]
+        # a thread joins the rendezvous inside setup_object only if one of its OWN attempts will succeed
+        will_succeed = [any(a not in case["raise_at"][t] for a in range(n_own[t])) for t in range(k)]
         rdv_n = sum(1 for t in range(k) if case["setup"][t] == "rendezvous" and will_succeed[t]) if mode != "line" else 0
         rdv = threading.Barrier(rdv_n, timeout=2.0) if rdv_n >= 2 else None
-        raise_at = [list(r) for r in case["raise_at"]] + [[]]
-        setup_beh = list(case["setup"]) + ["none"]
         td_raise = case["td_raise_calls"]
+
+        def raise_at(t):
+            return case["raise_at"][t] if t < k else []
 
         class F(lt.ThreadedFactory):
             def setup_object(self):
@@ -354,13 +481,13 @@ class Factory(C.Stream):
                     trace.append(["miss", t])
                     a = attempts[t]
                     attempts[t] += 1
-                if a in raise_at[t]:
+                if a in raise_at(t):
                     with lock:
                         trace.append(["raise", t])
                     raise _Boom()
                 if not done_first[t]:
                     done_first[t] = True
-                    beh = setup_beh[t]
+                    beh = case["setup"][t] if t < k else "none"
                     if beh == "rendezvous" and rdv is not None:
                         try:
                             rdv.wait()
@@ -370,7 +497,7 @@ class Factory(C.Stream):
                         time.sleep(0.002)
                     elif beh == "yield":
                         time.sleep(0)
-                value = VALUE_MAKERS[kinds[t]]()
+                value = VALUE_MAKERS[kinds[t] if t < k else "obj"]()
                 with lock:
                     n = st["created"]
                     st["created"] += 1
@@ -407,8 +534,79 @@ class Factory(C.Stream):
                               switch=0.35 + (case["seed"] % 5) * 0.12, timeout=5.0)
         start = threading.Barrier(k, timeout=5.0) if (mode == "barrier" and k >= 2) else None
 
+        def one_get():
+            """one `get_object()` call by the thread that executes this, in the context current there; its outcome is
+            recorded with THAT thread's tag"""
+            t = tag()
+            try:
+                o = f.get_object()
+            except _Boom:
+                with lock:
+                    trace.append(["exc", t, "_Boom"])
+            except Exception as e:  # classified: not a behaviour of the unchanged code
+                with lock:
+                    trace.append(["exc", t, type(e).__name__])
+            else:
+                with lock:
+                    ret_ctx[len(trace)] = cur_ctx()
+                    trace.append(["ret", t, token(o, t)])
+
+        def labelled(c, fn):
+            def run_it():
+                ctx_label.set(c)
+                return fn()
+            return run_it
+
+        def perform(how):
+            here = cur_ctx()
+            if how == "plain":
+                one_get()
+            elif how == "copy":                     # contextvars.copy_context().run(...)
+                ctx = contextvars.copy_context()
+                ctx.run(labelled(new_ctx(here), one_get))
+            elif how == "fresh":                    # an empty context
+                contextvars.Context().run(labelled(new_ctx(), one_get))
+            elif how == "arun":                     # the test drives asyncio code: the coroutine runs in a copy
+                c2 = new_ctx(here)
+
+                async def co():
+                    ctx_label.set(c2)
+                    await asyncio.sleep(0)
+                    one_get()
+                asyncio.run(co())
+            elif how == "task":                     # … which spawns a task (a copy of the coroutine's context)
+                c2 = new_ctx(here)
+
+                async def inner(c3):
+                    ctx_label.set(c3)
+                    await asyncio.sleep(0)
+                    one_get()
+
+                async def main():
+                    ctx_label.set(c2)
+                    await asyncio.create_task(inner(new_ctx(c2)))
+                asyncio.run(main())
+            elif how == "to-thread":                # … which off-loads a blocking helper to another OS thread
+                c2 = new_ctx(here)
+
+                async def main():
+                    ctx_label.set(c2)
+                    await asyncio.to_thread(labelled(new_ctx(c2), one_get))
+                asyncio.run(main())
+            elif how == "thread-ctx":               # a helper thread started with a copy of the caller's context
+                ctx = contextvars.copy_context()
+                th = threading.Thread(target=ctx.run, args=(labelled(new_ctx(here), one_get),), daemon=True)
+                th.start()
+                th.join(20.0)
+            elif how == "thread":                   # a plain helper thread (its own, empty context)
+                th = threading.Thread(target=one_get, daemon=True)
+                th.start()
+                th.join(20.0)
+            else:
+                raise ValueError(how)
+
         def worker(t):
-            tags[threading.get_ident()] = t
+            tags[threading.current_thread()] = t
             try:
                 if sched is not None:
                     sched.enter(t)
@@ -419,18 +617,8 @@ class Factory(C.Stream):
                         notes.add("start-broken")
                 if case["delay"][t]:
                     time.sleep(case["delay"][t] / 1000.0)
-                for _ in range(case["gets"][t]):
-                    try:
-                        o = f.get_object()
-                    except _Boom:
-                        with lock:
-                            trace.append(["exc", t, "_Boom"])
-                    except Exception as e:  # classified: not a behaviour of the unchanged code
-                        with lock:
-                            trace.append(["exc", t, type(e).__name__])
-                    else:
-                        with lock:
-                            trace.append(["ret", t, token(o, t)])
+                for g in range(case["gets"][t]):
+                    perform(hows[t][g] if g < len(hows[t]) else "plain")
             finally:
                 if sched is not None:
                     sched.leave(t)
@@ -466,7 +654,8 @@ class Factory(C.Stream):
                     trace.append(["tdend", k, None])
         if sched is not None and sched.broken:
             notes.add("sched-broken")
-        return {"trace": trace, "objects": snapshot, "notes": sorted(notes),
+        return {"trace": trace, "objects": snapshot, "notes": sorted(notes), "nthreads": k + 1 + sum(1 for v in tags.values() if v > k),
+                "ret_ctx": {str(i): c for i, c in ret_ctx.items()},
                 "sched": None if sched is None else {"points": sched.points, "switches": sched.switches}}
 
     # ---- the property, on observations only -------------------------------------------------------
@@ -516,16 +705,49 @@ class Factory(C.Stream):
         return fails
 
     # ---- the model ----------------------------------------------------------------------------------
+    @staticmethod
+    def _ctx_events(obs):
+        """the get-level history with contexts (model M14d): `get t c` for every call that returned — placed where its
+        object was created if it created one, else where it returned — and the context copies; plus the observed (t, o)"""
+        trace = obs["trace"]
+        create_at, creator = {}, {}
+        for i, ev in enumerate(trace):
+            if ev[0] == "create":
+                create_at[ev[2]], creator[ev[2]] = i, ev[1]
+        items, first = [], set()
+        for i, ev in enumerate(trace):
+            if ev[0] == "copy":
+                items.append((i, 0, ["copy", ev[2], ev[3]], None))
+            elif ev[0] == "ret":
+                t, o = ev[1], ev[2]
+                pos = i
+                if isinstance(o, int) and creator.get(o) == t and o not in first:
+                    first.add(o)
+                    pos = create_at[o]
+                items.append((pos, 1, ["get", t, (obs.get("ret_ctx") or {}).get(str(i), t)], [t, o]))
+        items.sort(key=lambda x: (x[0], x[1]))
+        return [it[2] for it in items], [it[3] for it in items if it[3] is not None]
+
     def request(self, case, obs):
-        tr = [ev for ev in obs["trace"] if ev[0] != "exc"]
+        tr = [ev for ev in obs["trace"] if ev[0] not in ("exc", "copy")]
         nobj = sum(1 for ev in tr if ev[0] == "create")
         snap = obs["objects"]
         if snap is not None and not all(isinstance(o, int) for o in snap):
             snap = None
-        return {"threads": case["threads"] + 1, "nobj": nobj, "objects": snap, "implicit_td": False, "trace": tr}
+        return {"threads": obs.get("nthreads", case["threads"] + 1), "nobj": nobj, "objects": snap, "implicit_td": False, "trace": tr,
+                "ctx": self._ctx_events(obs)[0]}
 
     def compare(self, case, obs, ans):
-        return _compare_factory(obs["trace"], obs["objects"], case["threads"] + 1, ans, case["teardowns"])
+        d = _compare_factory(obs["trace"], obs["objects"], obs.get("nthreads", case["threads"] + 1), ans, case["teardowns"])
+        if d is not None:
+            return d
+        # the get-level model with contexts (slot keyed by the OS thread): who is handed what
+        _, rets = self._ctx_events(obs)
+        if all(isinstance(o, int) for _, o in rets):
+            model = (ans.get("ctx") or {}).get("returned")
+            if model != rets:
+                return f"get-level history with contexts (thread-keyed slot): model hands out {model}, observed {rets}"
+        return None
 
     def _overlap(self, obs):
         """two threads inside the creation window (miss .. first ret) at the same time"""
@@ -570,6 +792,22 @@ class Factory(C.Stream):
             f.append("append-order-differs-from-creation-order")
         if max(case["gets"]) >= 2:
             f.append("repeated-get")
+        hows = case.get("how") or []
+        for t, hs in enumerate(hows):
+            for g, h in enumerate(hs):
+                if h != "plain":
+                    f.append("how:" + h)
+            own = [h for h in hs if h in OWN_HOWS]
+            if own and own[0] in ("copy", "arun", "task", "fresh") and len(own) >= 2:
+                f.append("first-access-of-a-thread-made-in-another-context-then-accessed-again")
+            seen_own = False
+            for h in hs:
+                if h in OWN_HOWS:
+                    seen_own = True
+                elif h in ("to-thread", "thread-ctx") and seen_own:
+                    f.append("helper-thread-runs-in-a-copy-of-its-parents-context-after-the-parent-got-its-object")
+        if obs.get("nthreads", 0) > case["threads"] + 1:
+            f.append("helper-os-threads=%d" % min(obs["nthreads"] - case["threads"] - 1, 6))
         vals = case.get("values") or []
         for t, kind in enumerate(vals):
             if kind != "obj":
@@ -589,11 +827,23 @@ class Factory(C.Stream):
             c = dict(case)
             c["td_raise_calls"] = []
             yield c
+        hows = case.get("how")
+        if hows and any(h != "plain" for hs in hows for h in hs):
+            c = dict(case)
+            c["how"] = [["plain"] * len(hs) for hs in hows]
+            yield c
+            for t, hs in enumerate(hows):
+                for g, h in enumerate(hs):
+                    if h != "plain":
+                        c = dict(case)
+                        c["how"] = [list(x) for x in hows]
+                        c["how"][t][g] = "plain"
+                        yield c
         if k > 1:
             for drop in range(k):
                 c = dict(case)
                 c["threads"] = k - 1
-                for key in ("gets", "raise_at", "setup", "delay") + (("values",) if case.get("values") else ()):
+                for key in ("gets", "raise_at", "setup", "delay") + (("values",) if case.get("values") else ()) + (("how",) if hows else ()):
                     c[key] = case[key][:drop] + case[key][drop + 1:]
                 c["td_raise_calls"] = [x for x in case["td_raise_calls"] if x == "last" or x < k - 1]
                 yield c
@@ -601,7 +851,15 @@ class Factory(C.Stream):
             if case["gets"][t] > 1:
                 c = dict(case)
                 c["gets"] = case["gets"][:t] + [case["gets"][t] - 1] + case["gets"][t + 1:]
+                if hows:
+                    c["how"] = [list(x) for x in hows]
+                    c["how"][t] = c["how"][t][:-1]
                 yield c
+                if hows and hows[t][0] != hows[t][-1]:
+                    c = dict(c)
+                    c["how"] = [list(x) for x in hows]
+                    c["how"][t] = c["how"][t][1:]
+                    yield c
             if case["raise_at"][t]:
                 c = dict(case)
                 c["raise_at"] = case["raise_at"][:t] + [[]] + case["raise_at"][t + 1:]
@@ -616,7 +874,7 @@ def _compare_factory(trace, snapshot, nthreads, ans, teardowns, label=""):
     """model answer vs observation of one factory instance"""
     if "error" in ans:
         return f"{label}model error: {ans['error']}"
-    tr = [ev for ev in trace if ev[0] != "exc"]
+    tr = [ev for ev in trace if ev[0] not in ("exc", "copy")]
     if ans.get("reject") is not None:
         i = ans["accepted"]
         return f"{label}the model rejects observed step {i} {tr[i] if i < len(tr) else None}: {ans['reject']}"
@@ -791,6 +1049,20 @@ class Run(C.Stream):
          "suites": [{"nested": False, "phases": [[{"uses": [["d0", False]]}] * 2]}]},
         {"nb_threads": 2, "mode": "chained", "fixtures": ["pu_plain"], "td_raise": None, "raise_setup": None, "shared": [],
          "extra": [], "suites": [{"nested": False, "setup_uses": "pu_plain", "phases": [[{"uses": [["pu_plain", False]]}] * 2]}]},
+        # options + timing: tests marked @lcc.disabled() run under --force-disabled; the last one (disabled, forced) is still
+        # running on its worker when the enabled tests of the suite are over: its suite-scoped instance must not be torn
+        # down before it has finished.  Then the same project without --force-disabled (the disabled tests are not run)
+        {"nb_threads": 3, "mode": "chained", "fixtures": ["pu_gen", "ps_gen"], "td_raise": None, "raise_setup": None, "force_disabled": True,
+         "suites": [{"nested": False, "phases": [[{"uses": [["pu_gen", False]]}, {"uses": [["pu_gen", True]], "disabled": True},
+                                                  {"uses": [["pu_gen", False], ["ps_gen", False]], "disabled": True, "hold": True}]]},
+                    {"nested": False, "phases": [[{"uses": [["pu_gen", False]]}, {"uses": [["pu_gen", False]], "hold": True}]]}]},
+        {"nb_threads": 3, "mode": "chained", "fixtures": ["pu_gen", "ps_gen"], "td_raise": None, "raise_setup": None, "force_disabled": False,
+         "suites": [{"nested": False, "phases": [[{"uses": [["pu_gen", False]]}, {"uses": [["pu_gen", True]], "disabled": True},
+                                                  {"uses": [["pu_gen", False], ["ps_gen", False]], "disabled": True, "hold": True}]]},
+                    {"nested": True, "phases": [[{"uses": [["pu_gen", False]], "disabled": True}, {"uses": [["pu_gen", False]], "hold": True}]]}]},
+        # minimised failing input of the seeded change C15-5 (the suite teardown task only waits for the ENABLED tests)
+        {"nb_threads": 2, "mode": "chained", "fixtures": ["pu_gen"], "td_raise": None, "raise_setup": None, "force_disabled": True,
+         "suites": [{"nested": False, "phases": [[{"uses": [["pu_gen", False]]}, {"uses": [["pu_gen", False]], "disabled": True, "hold": True}]]}]},
     ]
 
     # ---- generator ----------------------------------------------------------------------------------
@@ -883,6 +1155,22 @@ class Run(C.Stream):
                 "suites": suites}
         if extra:
             case["shared"], case["extra"] = shared, extra
+        # options and timing: tests marked @lcc.disabled(), the run with or without --force-disabled (then they are run like
+        # the others), and a LAST test of a suite whose body is still running when all its siblings are over (`hold`):
+        # the scope of a suite-scoped instance ends when ALL the tests of the suite that are run have finished
+        if rng.random() < 0.45:
+            tests_of = [[t for ph in sd["phases"] for t in ph] for sd in suites]
+            for ts in tests_of:
+                for t in ts:
+                    if rng.random() < 0.2:
+                        t["disabled"] = True
+                if rng.random() < 0.6:
+                    ts[-1]["hold"] = True
+                    if rng.random() < 0.6:
+                        ts[-1]["disabled"] = True
+            case["force_disabled"] = rng.random() < 0.7
+        elif rng.random() < 0.15:
+            case["force_disabled"] = True          # the option without any disabled test
         return case
 
     # ---- what the project declares, for the model ------------------------------------------------------
@@ -902,7 +1190,7 @@ class Run(C.Stream):
                 for ti, tdesc in enumerate(phase):
                     info = fxinfo(case)
                     args = [("via_" + fx if via and info.get(fx, {}).get("pt") else fx) for fx, via in tdesc["uses"]]
-                    tests.append({"path": "%s.t%d_%d_%d" % (path, si, pi, ti), "args": args, "parameters": [], "disabled": False})
+                    tests.append({"path": "%s.t%d_%d_%d" % (path, si, pi, ti), "args": args, "parameters": [], "disabled": bool(tdesc.get("disabled"))})
             node = {"path": path, "disabled": False, "injected": [], "setup_args": [sdesc["setup_uses"]] if sdesc.get("setup_uses") else [],
                     "tests": tests, "subs": []}
             if nested:
@@ -1042,6 +1330,13 @@ class Run(C.Stream):
 
         # ---- suites ------------------------------------------------------------------------------
         barriers = {}
+        force = bool(case.get("force_disabled"))
+        over_cv = threading.Condition()
+        over = {}               # suite name -> names of its tests that are over (body ended or teardown_test reached)
+        running_total = {}      # suite name -> number of its tests that are run (enabled, or disabled and forced)
+
+        def runs(tdesc):
+            return force or not tdesc.get("disabled")
 
         def setup_test(test):
             cur.suite = test.parent_suite.name
@@ -1054,10 +1349,32 @@ class Run(C.Stream):
                 except threading.BrokenBarrierError:
                     notes.add("barrier-broken")
 
+        def mark_over(suite_name, test_name):
+            with over_cv:
+                over.setdefault(suite_name, set()).add(test_name)
+                over_cv.notify_all()
+
+        def teardown_test(test, status):
+            mark_over(test.parent_suite.name, test.name)
+
+        def outlive_siblings(suite_name, test_name):
+            """the body goes on until every other test of the suite that is run is over, and a little longer"""
+            deadline = time.time() + 2.0
+            with over_cv:
+                while len(over.get(suite_name, set()) - {test_name}) < running_total[suite_name] - 1:
+                    left = deadline - time.time()
+                    if left <= 0:
+                        notes.add("hold-timeout")
+                        break
+                    over_cv.wait(left)
+            time.sleep(0.04)
+
         top, prev_top, prev_last = [], None, None
         for si, sdesc in enumerate(case["suites"]):
             suite = Suite(None, "s%d" % si, "suite %d" % si)
             suite.add_hook("setup_test", setup_test)
+            suite.add_hook("teardown_test", teardown_test)
+            running_total[suite.name] = sum(1 for ph in sdesc["phases"] for t in ph if runs(t))
             if sdesc.get("setup_uses"):
                 def setup_suite_impl(sname="s%d" % si, **kw):
                     for p, v in kw.items():
@@ -1066,12 +1383,14 @@ class Run(C.Stream):
                 suite.add_hook("setup_suite", _mkfunc("setup_suite", [sdesc["setup_uses"]], setup_suite_impl))
             tests = []
             for pi, phase in enumerate(sdesc["phases"]):
-                size = min(len(phase), nb)
+                size = min(sum(1 for t in phase if runs(t)), nb)        # the tests of the phase that are run, pinned to workers
                 bar = threading.Barrier(size, timeout=(6.0 if chained else 0.25)) if size >= 2 else None
+                pinned = 0
                 for ti, tdesc in enumerate(phase):
                     args = [("via_" + fx if via and info[fx]["pt"] else fx) for fx, via in tdesc["uses"]]
+                    name = "t%d_%d_%d" % (si, pi, ti)
 
-                    def body(uses=tdesc["uses"], **kw):
+                    def body(uses=tdesc["uses"], hold=bool(tdesc.get("hold")), sname=suite.name, tname=name, **kw):
                         for fx, via in uses:
                             via = via and info[fx]["pt"]
                             v = kw["via_" + fx if via else fx]
@@ -1079,22 +1398,29 @@ class Run(C.Stream):
                                 rec("use", key_of(fx), ident(v), cur.test, "body", not via)
                             for w in nested(v, set()):
                                 rec("use", key_of(w.fx), w.n, cur.test, "nested", False)
+                        if hold:
+                            outlive_siblings(sname, tname)
+                            rec("held", cur.test)
                         rec("test_end", cur.test)
-                    name = "t%d_%d_%d" % (si, pi, ti)
+                        mark_over(sname, tname)
                     test = Test(name, name, _mkfunc(name, args, body))
+                    if tdesc.get("disabled"):
+                        test.disabled = True
                     if chained and prev_last is not None:
                         test.dependencies.append(prev_last)
                     suite.add_test(test)
-                    tests.append(test)
-                    if bar is not None and ti < size:
-                        barriers[name] = bar        # test names are unique over the whole project
+                    if runs(tdesc):
+                        tests.append(test)
+                        if bar is not None and pinned < size:
+                            barriers[name] = bar        # test names are unique over the whole project
+                            pinned += 1
             if sdesc["nested"] and prev_top is not None:
                 prev_top.add_suite(suite)
             else:
                 top.append(suite)
                 prev_top = suite
             if tests:
-                prev_last = tests[-1].path
+                prev_last = tests[-1].path      # the last test of the suite that is RUN
 
         # ---- event seam: global order of SuiteEnd / TestSessionEnd relative to the user-code trace ---------
         class RecEM(AsyncEventManager):
@@ -1132,7 +1458,7 @@ class Run(C.Stream):
             def go():
                 try:
                     session = Session.create(RecEM.load(), [], report_dir, None, nb_threads=nb)
-                    out["result"] = "returned:%s" % runner.run_suites(top, registry, session, nb_threads=nb)
+                    out["result"] = "returned:%s" % runner.run_suites(top, registry, session, nb_threads=nb, force_disabled=force)
                 except BaseException as e:  # classified
                     out["result"] = "raised:" + type(e).__name__
                     out["message"] = str(e)[-300:]
@@ -1333,6 +1659,29 @@ class Run(C.Stream):
                 reuse[(ev[2], ev[1])] = reuse.get((ev[2], ev[1]), set()) | {ev[4]}
         if any(len(v) >= 2 for v in reuse.values()):
             f.append("reuse-by-later-test-on-same-thread")
+        all_tests = [t for sd in case["suites"] for ph in sd["phases"] for t in ph]
+        if case.get("force_disabled"):
+            f.append("force_disabled")
+        if any(t.get("disabled") for t in all_tests):
+            f.append("disabled-tests" + ("-forced" if case.get("force_disabled") else "-not-run"))
+        held = {ev[2] for ev in obs["trace"] if ev[0] == "held"}
+        if held:
+            f.append("last-test-outlives-its-siblings")
+            user_keys = {}
+            for ev in obs["trace"]:
+                if ev[0] == "use":
+                    user_keys.setdefault(ev[4], set()).add(ev[2])
+            dis_paths = set()
+            for si, sd in enumerate(case["suites"]):
+                for pi, ph in enumerate(sd["phases"]):
+                    for ti, t in enumerate(ph):
+                        if t.get("disabled"):
+                            dis_paths.add("t%d_%d_%d" % (si, pi, ti))
+            for path in held:
+                if path.split(".")[-1] in dis_paths:
+                    f.append("forced-disabled-test-outlives-the-enabled-ones")
+                    if any(not k.endswith("@session") and info[k.split("@")[0]]["gen"] for k in user_keys.get(path, ())):
+                        f.append("forced-disabled-test-outlives-the-enabled-ones-using-a-suite-scoped-generator-instance")
         if case.get("raise_setup"):
             f.append("raising-setup")
         if case.get("td_raise"):
@@ -1350,6 +1699,18 @@ class Run(C.Stream):
                 c = dict(case)
                 c[key] = None
                 yield c
+        for si, sd in enumerate(case["suites"]):
+            for pi, ph in enumerate(sd["phases"]):
+                for ti, t in enumerate(ph):
+                    for flag in ("disabled", "hold"):
+                        if t.get(flag):
+                            c = copy.deepcopy(case)
+                            c["suites"][si]["phases"][pi][ti].pop(flag)
+                            yield c
+        if case.get("force_disabled") and not any(t.get("disabled") for sd in case["suites"] for ph in sd["phases"] for t in ph):
+            c = dict(case)
+            c.pop("force_disabled")
+            yield c
         # drop a declared fixture nobody refers to any more / a use of an extra fixture / a suite's setup_suite argument
         extra = case.get("extra") or []
         referenced = {p for d in extra for p in d["params"]} | {fx for s in case["suites"] for ph in s["phases"] for t in ph for fx, _ in t["uses"]} \
@@ -1397,5 +1758,146 @@ class Run(C.Stream):
             yield c
 
 
+# =================================================================================================
+# Stream 3: run-level correspondence — the REAL task graph vs. Run.buildTasks, real traces vs. the run acceptor
+# =================================================================================================
+
+def oracle_sched(project, obs, v):
+    """C15's clauses on a run-level observation (harness/run/observe.py), for the per-thread fixtures only: an instance is
+    consumed on the thread that created it, one instance per (fixture, scope instance, thread), reused, and torn down
+    exactly once, not before the last consumer — a forced disabled test included — has finished."""
+    from run import gen as RG
+    from run import oracles as X
+    F = C.Failure
+    out = []
+    if "invalid" in obs["outcome"]:
+        return out
+    setups, teardowns = X._fixture_instances(v)
+    by_token = {tok: e for e, tok in setups}
+    last = len(v.trace)
+
+    def end_of(e):
+        return e.end if e.end is not None else last
+    consumers = [e for e in v.execs if e.extra]
+    for tp, vals in obs.get("injected", []):
+        for e in v.body_exec(tp):
+            import copy as _copy
+            e2 = _copy.copy(e)
+            e2.extra = dict(vals)
+            consumers.append(e2)
+            break
+    seen = {}
+    for c in consumers:
+        sp, tp = X._consumer_context(v, c)
+        for n, tok in c.extra.items():
+            fx = v.byname.get(n)
+            s = by_token.get(tok)
+            if fx is None or not fx["per_thread"] or s is None or s.unit[1] != fx["name"]:
+                continue        # not a per-thread instance (C03's business)
+            scope = fx["scope"]
+            if s.root != c.root:
+                out.append(F("C15/sched/instance-handed-to-foreign-thread",
+                             "%r (worker %d) received %s created on worker %d" % (c, c.root, tok, s.root)))
+            hold_end = end_of(c)
+            if c.unit[0] == "fx":       # a test-scoped fixture that took it as a parameter holds it until its own teardown
+                own = v.fx_tokens.get(c.enter)
+                for t in teardowns.get(own, []):
+                    hold_end = max(hold_end, end_of(t))
+            for t in teardowns.get(tok, []):
+                if t.enter < hold_end:
+                    dis = " (a disabled test run under --force-disabled)" if tp is not None and v.tests.get(tp, {}).get("disabled") else ""
+                    out.append(F("C15/sched/torn-down-before-last-use/" + scope,
+                                 "%s torn down at record %d while %r%s still used it (until %d)" % (tok, t.enter, c, dis, hold_end)))
+            seen.setdefault((n, sp if scope == "suite" else None, c.root), set()).add(tok)     # n: the REGISTERED name (a function registered under two names is two fixtures)
+    for key, toks in seen.items():
+        if len(toks) > 1:
+            out.append(F("C15/sched/not-reused-on-same-thread", "consumers of %s in %r on worker %d saw %s" % (key[0], key[1], key[2], sorted(toks))))
+    counts = {}
+    for s, tok in setups:
+        fx = v.byprim[s.unit[1]]
+        if not fx["per_thread"] or s.end_kind != "exit":
+            continue
+        g = v.tasks[s.task] if s.task is not None else None
+        key = (fx["name"], tuple(g["path"][:-1]) if g and fx["scope"] == "suite" else None, s.root)
+        counts[key] = counts.get(key, 0) + 1
+    for key, n in counts.items():
+        if n > len(RG.fx_names(v.byprim[key[0]])):
+            out.append(F("C15/sched/created-more-than-once-per-thread", "%s evaluated %d times for %r on worker %d" % (key[0], n, key[1], key[2])))
+    if not v.hang:
+        for s, tok in setups:
+            fx = v.byprim[s.unit[1]]
+            if not (fx["per_thread"] and fx["gen"]):
+                continue
+            n = len(teardowns.get(tok, []))
+            if v.clean(s) and n == 0:
+                out.append(F("C15/sched/instance-never-torn-down", "%s (%r) was created without failure and never torn down" % (tok, s)))
+            elif n > 1:
+                out.append(F("C15/sched/instance-torn-down-more-than-once", "%s torn down %d times" % (tok, n)))
+    dedup, res = set(), []
+    for f in out:
+        if f.signature not in dedup:
+            dedup.add(f.signature)
+            res.append(f)
+    return res
+
+
+def _sched_stream():
+    from props._runcommon import PropRunStream
+    from run import gen as RG
+    from run import oracles as X
+
+    class Sched(PropRunStream):
+        """generated projects WITH per-thread fixtures (profile `perthread` of harness/run/gen.py), tests marked disabled and
+        --force-disabled, ≥ 2 workers, gate strategies that let any test outlive its siblings; the graph the real
+        build_tasks returns must equal Run.buildTasks (and be well-formed), the real trace is replayed on the run acceptor"""
+        name = "C15.sched"
+        prop = "C15"
+        profile = "perthread"
+        driver = "drivers/Run.lean"
+        oracles = ()
+        threads = (2, 2, 3, 4, 8)
+        strategies = ("fifo", "lifo", "random", "random")
+        quick_cases = 110
+        quick_seconds = 22
+        thorough_cases = 2500
+        thorough_seconds = 300
+        corpus = []
+
+        def gen(self, rng, i):
+            case = super().gen(rng, i)
+            p = case["project"]
+            if rng.random() < 0.6:
+                # the option and tests marked disabled (which it makes run like the others)
+                p["force_disabled"] = rng.random() < 0.85
+                for tp, t, sp, s_, dis in RG.iter_tests(p):
+                    if not t["disabled"] and rng.random() < 0.3:
+                        t["disabled"] = True if rng.random() < 0.7 else "disabled because of %s" % t["name"]
+                RG.check_valid(p)
+            return case
+
+        def oracle(self, case, obs):
+            return oracle_sched(case["project"], obs, X.View(case["project"], obs))
+
+        def nontrivial(self, case, obs):
+            p = case["project"]
+            uses_pt = any(RG.fixtures_by_name(p).get(n, {}).get("per_thread") for _, t, *_ in RG.iter_tests(p)
+                          for n in RG.closure(p, t["fixtures"], RG.fixtures_by_name(p)))
+            return super().nontrivial(case, obs) and uses_pt
+
+        def features(self, case, obs):
+            f = super().features(case, obs)
+            p = case["project"]
+            if p["force_disabled"] and any(dis for *_, dis in RG.iter_tests(p)):
+                f.append("disabled-tests-forced")
+                byname = RG.fixtures_by_name(p)
+                for tp, t, sp, s_, dis in RG.iter_tests(p):
+                    if dis and any(byname[n]["per_thread"] and byname[n]["scope"] == "suite"
+                                   for n in RG.closure(p, t["fixtures"], byname) if n in byname):
+                        f.append("forced-disabled-test-uses-a-suite-scoped-per-thread-fixture")
+                        break
+            return f
+    return Sched()
+
+
 def streams(ctx):
-    return [Factory(), Run()]
+    return [Factory(), Run(), _sched_stream()]
